@@ -71,6 +71,9 @@ ASSUMPTIONS = [
     "H_draws: Beta(beta,beta).sample, torch.randperm and torch.rand return rates in [0,1], indices < B and "
     "uniforms; their distribution is not part of the property (the theorems hold for every value of the draws)",
     "float32 round-off of lambda and of the convex combination is outside the exact model (tolerance 2e-6 * scale)",
+    "the statement demands no raise: where the current code raises outside the quantifier (mi_scores missing in "
+    "feature mode, class index outside [0, num_classes)) a normal return is accepted and the model, which mirrors the "
+    "raise, is then not compared",
     "feature entries are finite float32 values of any magnitude incl. subnormals and zero: for those, "
     "mask*x + ~mask*x' returns the selected entry bit for bit (Props/C19.v mixup_entry_ieee_exact), except for the "
     "sign of a zero entry (-0.0 + 0.0 = +0.0) -- the oracle and the select32 correspondence identify -0.0 and 0.0 (a "
@@ -83,6 +86,13 @@ ASSUMPTIONS = [
 
 TOL = Fr(2, 10 ** 6)
 
+# CLAUSES -- raise / rejection demands and their backing in the property statement: the statement of C19 demands NO
+# raise anywhere (it does not mention out-of-range class indices or missing mi_scores).  The oracle therefore has no
+# no-raise:* / must-reject key; `raises:<mode>:<target>` is the demand NOT to raise on a valid batch.  On the malformed
+# stream (mi_scores=None in feature mode; class index >= num_classes) the current code raises and the model mirrors it:
+# raise-vs-raise is compared (mixup_raises), a normal return is accepted and not compared.  Zero-sum scores: no demand,
+# not compared.
+#
 # ERROR_PATHS -- every raise / assert / special-case branch / dtype cast / float comparison of the anchored code
 # (excelformer.py feature_mixup + the mixup_encoded part of ExcelFormer.forward), the generator kind that reaches it and
 # the oracle / correspondence key that notices a change.  "corr" = model-vs-implementation term of coq_term_one.
@@ -1082,9 +1092,13 @@ def coq_term_one(case, obs):
               f"unif := {C.clist([[Fr(0)] * n] * B, lambda r: C.clist(r, cq))} |}}")
         return f"mixup_raises {x} {y} {nc} {mt} {mi} {dr}"
     f, rec = analyse(case, obs)
+    if expects_raise(case):
+        return None                  # the model mirrors a raise of the current code that the statement does not
+                                     # demand (mi_scores missing, class index out of range): the implementation
+                                     # returned normally, nothing to compare
     if rec is None:
-        if expects_raise(case) or zero_sum_mi(case):
-            return "false"           # model raises, implementation returned / feature tensor not traceable
+        if zero_sum_mi(case):
+            return "false"           # feature tensor not traceable
         if obs.get("x") is None:
             return foreign_term(case, obs)
         return None                  # the oracle reports the structural failure
